@@ -160,7 +160,9 @@ func (m *MergeExp) filter(t Type, lookup *TypeLookup) (Exp, error) {
 					FormatExp(m, "")),
 			}
 		}
-		innerType = t.Elem
+		// One dimension less, not the base element type: the value of
+		// a merge of an array-typed output is itself an array.
+		innerType = lookup.GetArray(t, -1)
 	case *TypedMapType:
 		if m.MergeOver.CallMode() == ModeArrayCall {
 			return m, &IncompatibleTypeError{
